@@ -9,11 +9,11 @@ import (
 	"context"
 	"encoding/hex"
 	"encoding/json"
-	mrand "math/rand"
 	"fmt"
 	"go/ast"
 	"go/parser"
 	"go/token"
+	mrand "math/rand"
 	"os"
 	"os/exec"
 	"path/filepath"
@@ -23,10 +23,10 @@ import (
 )
 
 type replayer struct {
-	m    *Mirror
-	id   string
-	bins map[string]string // pkg dir -> test binary ("" = build failed)
-	errs map[string]string
+	m           *Mirror
+	id          string
+	bins        map[string]string // pkg dir -> test binary ("" = build failed)
+	errs        map[string]string
 	modelReplay func(rr *replayRec) (bool, string)
 }
 
